@@ -122,12 +122,14 @@ TRUSTED = [
     'the reference multipart encoder and the flat-buffer reference splitter in harness/props/c13.py (written from RFC 7578 / RFC 2046 5.1.1 and the property statement, bytes.find over one bytes object, no buffering)',
     'SIGPROF after 3 CPU-seconds (wall-clock backstop 90 s) / asyncio.wait_for(30 s) deciding "did not return" for the implementation side',
     'CPython json / urllib for the expected value of get_media() on application/json and urlencoded parts',
+    'the strict RFC 8187 ext-value decoder, the liberal readings and the judgement table of harness/lib_extvalue.py (written from the RFC grammar; UTF-8 per RFC 3629, ISO-8859-1 and US-ASCII decoded by hand - the UTF-8 decoder agrees with CPython strict decoding on all 1-2 octet strings and 400000 random longer ones); the CPython codec registry for which other charset names denote a text encoding and bytes.decode for those optional charsets',
     'the reference writer of header parameters (_enc_params/_qstr: RFC 9110 5.6.4 quoted-string with quoted-pairs for DQUOTE and backslash only, RFC 9110 5.6.6 parameters, bare tokens, any attribute-name case, optional blanks around ";") and CPython bytes.decode(charset) for the expected value of get_text() (the documented contract of get_text)',
 ]
 ASSUMPTIONS = [
     'Lean side of the bridge: chunk size >= len(CRLF--boundary) and >= 4 (Mf.next_refines_flat hypothesis hc); max_body_part_headers_size >= 0 or -1; the application\'s behaviour on a part stream is a (for the given body fixed) list of public reader operations with valid arguments (sizes None/-1/>= 0, delimiters non-empty and <= chunk size); get_data/get_text/get_media (BodyPart accessors, max_body_part_buffer_size) are not operations of the reader model',
     'reference forms are boundary-safe: CRLF--boundary occurs nowhere in CRLF+content, the preamble does not contain --boundary and ends with CRLF; names/filenames contain no CR or LF (a header line cannot carry them); in sections (b)/(c) they contain no double quote or backslash, in section (d) they range over every printable ASCII character (quote and backslash written as quoted-pairs), HTAB and some non-ASCII letters',
     'KNOWN FINDING F46 (recorded for C11 in known_findings.json; root cause _parse_param_old_stdlib of falcon/util/mediatypes.py, which C13 reaches through BodyPart.name/filename/get_text): a QUOTED parameter value ENDING in an escaped backslash that is FOLLOWED by another parameter swallows the following parameters on the unchanged tree (name="x\\\\"; filename="y" gives name x\\"; filename="y and no filename). Exactly that class (decided by the encoder: quoted value ends in a backslash and is not the last parameter) is generated but judged under its own oracle name, which demands the part count, order, content type, contents, outcome and WSGI/ASGI agreement but NOT the value of name/filename (a str, None or the parse error is accepted). The same value as the LAST parameter is parsed correctly by the unchanged tree and is judged strictly. A strict judgement of the class needs a C13 entry for F46 in known_findings.json',
+    'section (g), filename* values: (i) STRICT: a well-formed value in UTF-8 / ISO-8859-1 / US-ASCII (IANA names and aliases, any case), with any well-formed language tag - also one with subtags, en-GB / zh-Hant-TW: class L, finding F48, repaired in /repo 4cb5964 - must give exactly the decoded name; well-formed grammar whose octets are ill-formed in such a charset must give the multipart parse error; a charset beyond those (RFC 8187 3.2.1: recipients need not support it) may be decoded (then exactly), refused or ignored, an unknown one refused or ignored - "ignored" = part.filename is the plain filename parameter or None. (ii) LIBERAL: values that violate the ext-value grammar (stray %, characters outside attr-char incl. raw non-ASCII, extra/missing quote mark, bad charset/language syntax, no value characters) are not refused by the tree but read literally or ignored (accepted by the coordinator as not part of the statement); the oracle accepts the parse error, ignored, or a liberal literal reading (every well-formed pct-encoded is an octet, any other character stands for itself) and such a reading exists only if its octets are well-formed in the charset - so a made-up U+FFFD name is a failure in every class. name* is not supported (RFC 7578 4.2 forbids it): it must change nothing',
     'section (e): get_media() on a part may also raise the HTTP errors of the part media handlers - HTTPUnsupportedMediaType (415: no handler for the declared type) and MediaMalformedError (400: the content is not a document of the declared type); these are accepted there besides a value and the multipart parse error. get_text()/get_data()/name/filename/content_type may only give a value or MultipartParseError. The expected text of get_text() is bytes.decode(charset) as documented (the charset must be supported by bytes.decode), MultipartParseError when that raises anything; with a duplicated charset parameter or a near-miss media type (TEXT/PLAIN, blanks) any str/None/MultipartParseError is accepted',
     'the parse_header correspondence feeds ASCII header values only (str.strip()/str.lower() on non-ASCII text are outside the Mt model); non-ASCII names are covered by the oracle',
     'reader chunk sizes are >= len(CRLF--boundary) (always true for the default 32 KiB / 8 KiB and boundaries <= 70 bytes); smaller chunk sizes are exercised only in the correspondence, where next() raises ValueError on both sides',
@@ -145,6 +147,15 @@ RULE = ('(a1) async model correspondence (madriver): messy / reference-encoded /
         '(d) characters of names and filenames: EXHAUSTIVELY every 1-character string over printable ASCII + HTAB + the empty string, every 2-character string over the 20-symbol alphabet {" \\ ; = , * \' % space a z N 0 . - / : ( & e-acute}, every pair special x printable ASCII in both orders (2207 strings per run, sharded), every 3-character string over the alphabet in the thorough tier (2400 sampled in quick), plus random strings of 2-8 fragments (\";  \\\"  name=  filename*=  UTF-8\'\'  %22 ...) or 4-24 characters; each string is placed as name (only / last / first parameter) and as filename (last / first), beside a second value from a list with its own specials, written as quoted-string (a token sometimes bare, so the fast path of parse_header is taken too), attribute names in any case, blanks/HTAB around the semicolons, 20% an extra parameter anywhere, form-data in any case; 1-6 such parts per form x random boundary/chunking/consumption script/entry point as in (b); judged for exact name, filename, content type, content (class F46 under its own oracle, see ASSUMPTIONS); '
         '(e) parameter values handed to library functions: forms of 1-3 parts whose Content-Type is text/plain with a charset that is valid (11 spellings) or odd (one NUL/control/DEL/blank/quote/backslash/;/=/%/non-ASCII character inserted into, substituted in, put before or after a valid name; the character alone; empty; unknown; non-text codecs hex/rot13/base64/undefined/idna/punycode/unicode_escape/utf-7/mbcs; 30..7900 characters, also across the header-size limit), quoted when needed, in any position among 0-2 other parameters; json/urlencoded parts with well-formed parameters (strict get_media value) or odd parameters/suffixes (;; =  q=\"  NUL  2500-character parameter lists); odd media types (empty, blank, /, a/b/c, */*, NUL inside, 3000 characters, TEXT/PLAIN, duplicated charset); 30% a filename* whose charset/language are valid or odd; consumed 50% by get_text/.text, 20% get_media/.media, 15% get_data/.data, rest stream reads, on both stacks and all entry points; '
         'plus for one small valid form per shard EVERY position of every parameter value (name, filename/filename*, both charsets, incl. the = and the byte after the value) x byte values {0x00-0x20, \" % \' * ; = A \\ DEL 0x80 0xC3 0xE9 0xFF} (all 256 in the thorough tier) as substitution and (charset values; everywhere in thorough) insertion, read by get_text/.text (70%), get_media, get_data, judged by the flat-buffer splitter; '
+        '(g) RFC 8187/5987 extended values, WELL-FORMED AND MALFORMED: for 10 (thorough: 16) well-formed filename* values (UTF-8 with 2/3/4-octet sequences, ISO-8859-1, US-ASCII, windows-1252, with/without language, en-GB) EVERY single edit of the whole '
+        'value - each deletion, each substitution by one of 34 characters (hex digits of both cases, % G z \' " blank * ; = \\ - e-acute), each insertion of one of 13 characters, at every position incl. charset, quote marks and language (12865 values per run, sharded) - '
+        'plus a grammar (charset: 11 core spellings / 14 optional / 11 unknown / 15 syntactically odd; language: none, en, en-GB, zh-Hant-TW, odd; value-chars composed of encodable text with over-escaping and lower-case hex, '
+        'octet sequences ILL-FORMED in UTF-8 by family - truncated, lone continuation, overlong, surrogate, > U+10FFFF, invalid octet, lead byte followed by ASCII -, octets >= 0x80 (ill-formed when declared US-ASCII), stray percent signs, characters outside attr-char incl. raw non-ASCII; '
+        '0-3 quote marks; empty value); each value is written bare or as quoted-string, alone or with a plain filename before/after it, 8% with a name* beside it, 1-6 such parts per form x random boundary/chunking/consumption script/entry point as in (b), both stacks; '
+        'judged by the strict reference decoder of harness/lib_extvalue.py (hand-written RFC 3629 / ISO-8859-1 / US-ASCII decoders): well-formed -> exactly the decoded name, octets ill-formed in the declared charset -> the multipart parse error (and secure_filename too), '
+        'unknown/optional charset -> decoded, parse error or ignored; grammar violations under their own oracle (see ASSUMPTIONS); '
+        'SECOND-ORDER observation in (a)-(g): every byte string a part hands out (stream.read/peek/read_until/readline, each piece of a read loop, each chunk written by pipe or yielded by an iteration, get_data(), .data) must be exactly a bytes '
+        '(type(x) is bytes; a bytearray with the right content is a difference for the oracles and, as a !TYPE suffix the models never emit, for the correspondences); get_data/.data -> bytes and get_text/.text -> str in the buffer-limit oracle; '
         '(f) correspondence parse_header = Mt.parseHeader on ASCII Content-Disposition values from the sweep, Content-Type values with odd charsets and junk over {\" \\ ; = blank HTAB NUL 0x1C ,}; '
         'non-trivial = at least one part was yielded or a parse error was raised; distinct = distinct (body, boundary, options, script, chunking, path)')
 PARTIAL = ('Proved in Lean: parse_encode (with decided necessity witnesses), parseAll_encode with biting limits, headers_size_limit_exact, part_count_limit_exact (arbitrary and encoded bodies), '
@@ -156,7 +167,7 @@ PARTIAL = ('Proved in Lean: parse_encode (with decided necessity witnesses), par
            'reader over parent._iter_delimited (own buffer, own _iter_normalized), satisfies the laws - hence async_concrete_refines_flat, sync_async_agree_concrete, async_concrete_parse_encode, '
            'async_concrete_error_only, async_chunking_independent for EVERY list of transport pieces; BodyPart.get_data (same body on both stacks): '
            'async_buffer_limit_exact, buffer_limit_every_call, tooLarge_sticky (repair 913e041, F39) with the pinned regression witness. '
-           'NOT proved in Lean: (1) get_text/get_media decoding, RFC 5987 decoding of filename*, content_type, secure_filename and the mapping '
+           'NOT proved in Lean: (1) get_text/get_media decoding, RFC 5987 decoding of filename* (oracle: strict reference decoder over all single edits of well-formed values + a grammar of malformed ones), the TYPE of the byte strings handed out (not a notion of the models; oracle + rendering), content_type, secure_filename and the mapping '
            'DelimiterError -> MultipartParseError are outside the models and are carried by the oracle only; parse_header (which name/filename/get_text go through) is MODELLED (Mt.parseHeader, the C11 model, tied here by its own correspondence on Content-Disposition/Content-Type values) but the round trip parse_header(quoted-string(v)) = v for values not in class F46 is not proved - it is decided by the exhaustive pair/triple sweep of the oracle; (2) the bridges need chunk size >= len(CRLF--boundary) (below it next() raises ValueError: correspondence only) '
            'and max_body_part_headers_size >= 0 or -1; (3) application behaviour is a list of reader operations fixed per body (an adaptive application performs some such list on each body, so this loses nothing for a given run); '
            'on the async side a second `async for` over the same stream (OperationNotAllowed) and tell()/eof are not part of the theorems (tell()/eof are compared in the correspondence). '
@@ -337,16 +348,16 @@ def _corr(ctx):
                     line = None
                     try:
                         if op == 'read':
-                            n = rnd.choice([None, -1, 0, 1, 2, 3, 5, 9, 100]); line = f"p read {'none' if n is None else n}"; out = r.read(n); sess.op(line, 'ok ' + out.hex() + st())
+                            n = rnd.choice([None, -1, 0, 1, 2, 3, 5, 9, 100]); line = f"p read {'none' if n is None else n}"; out = r.read(n); sess.op(line, 'ok ' + _hxt(out) + st())
                         elif op == 'peek':
-                            n = rnd.choice([-1, 0, 1, 2, 3, 9]); line = f"p peek {n}"; out = r.peek(n); sess.op(line, 'ok ' + out.hex() + st())
+                            n = rnd.choice([-1, 0, 1, 2, 3, 9]); line = f"p peek {n}"; out = r.peek(n); sess.op(line, 'ok ' + _hxt(out) + st())
                         elif op == 'ru':
                             d = rnd.choice([b'\n', b'-', b'\r\n', b'--', b'a-a', b'ab']); n = rnd.choice([-1, -1, 0, 1, 2, 3, 4, 8, 16, 100]); c = rnd.choice([0, 0, 1])
-                            line = f"p ru {d.hex()} {n} {c}"; out = r.read_until(d, n, bool(c)); sess.op(line, 'ok ' + out.hex() + st())
+                            line = f"p ru {d.hex()} {n} {c}"; out = r.read_until(d, n, bool(c)); sess.op(line, 'ok ' + _hxt(out) + st())
                         elif op == 'pipe':
-                            line = 'p pipe'; dst = io.BytesIO(); r.pipe(dst); sess.op(line, 'ok ' + dst.getvalue().hex() + st())
+                            line = 'p pipe'; dst = _ListSink(); r.pipe(dst); sess.op(line, 'ok ' + _hxj(dst.got) + st())
                         elif op == 'rl':
-                            n = rnd.choice([-1, -1, 0, 1, 3, 100]); line = f"p rl {n}"; out = r.readline(n); sess.op(line, 'ok ' + out.hex() + st())
+                            n = rnd.choice([-1, -1, 0, 1, 3, 100]); line = f"p rl {n}"; out = r.readline(n); sess.op(line, 'ok ' + _hxt(out) + st())
                         hist.append(line)
                     except DelimiterError:
                         sess.op(line, 'err delim' + st()); hist.append(line)
@@ -413,18 +424,18 @@ def _corr(ctx):
                     try:
                         if op == 'read':
                             n = rnd.choice([None, -1, 0, 1, 2, 3, 5, 9, 100]); line = f"p read {'none' if n is None else n}"
-                            out = await asyncio.wait_for(r.read(n),30); asess.op(line, 'ok ' + out.hex())
+                            out = await asyncio.wait_for(r.read(n),30); asess.op(line, 'ok ' + _hxt(out))
                         elif op == 'peek':
-                            n = rnd.choice([-1, 0, 1, 2, 3, 9]); line = f"p peek {n}"; out = await asyncio.wait_for(r.peek(n),30); asess.op(line, 'ok ' + out.hex())
+                            n = rnd.choice([-1, 0, 1, 2, 3, 9]); line = f"p peek {n}"; out = await asyncio.wait_for(r.peek(n),30); asess.op(line, 'ok ' + _hxt(out))
                         elif op == 'ru':
                             d = rnd.choice([b'\n', b'-', b'\r\n', b'--', b'a-a', b'ab']); n = rnd.choice([-1, -1, 1, 2, 3, 4, 8, 16, 100]); c = rnd.choice([0, 0, 1])
-                            line = f"p ru {d.hex()} {n} {c}"; out = await asyncio.wait_for(r.read_until(d, n, bool(c)),30); asess.op(line, 'ok ' + out.hex())
+                            line = f"p ru {d.hex()} {n} {c}"; out = await asyncio.wait_for(r.read_until(d, n, bool(c)),30); asess.op(line, 'ok ' + _hxt(out))
                         elif op == 'pipe':
                             line = 'p pipe'; acc = []
 
                             class Dst:
                                 async def write(self, data): acc.append(data)
-                            await asyncio.wait_for(r.pipe(Dst()),30); asess.op(line, 'ok ' + b''.join(acc).hex())
+                            await asyncio.wait_for(r.pipe(Dst()),30); asess.op(line, 'ok ' + _hxj(acc))
                         hist.append(line)
                     except DelimiterError:
                         asess.op(line, 'err delim'); hist.append(line)
@@ -557,14 +568,14 @@ def _acorr_cases(ctx, sess, n):
                     try:
                         if op == 'read':
                             k = rnd.choice([None, -1, 0, 1, 2, 3, 5, 9, 100]); line = f"p read {'none' if k is None else k}"
-                            out = await asyncio.wait_for(r.read(k), 30); sess.op(line, 'ok ' + out.hex() + st())
+                            out = await asyncio.wait_for(r.read(k), 30); sess.op(line, 'ok ' + _hxt(out) + st())
                         elif op == 'readall':
-                            line = 'p readall'; out = await asyncio.wait_for(r.readall(), 30); sess.op(line, 'ok ' + out.hex() + st())
+                            line = 'p readall'; out = await asyncio.wait_for(r.readall(), 30); sess.op(line, 'ok ' + _hxt(out) + st())
                         elif op == 'peek':
-                            k = rnd.choice([-1, 0, 1, 2, 3, 9, 10000]); line = f"p peek {k}"; out = await asyncio.wait_for(r.peek(k), 30); sess.op(line, 'ok ' + out.hex() + st())
+                            k = rnd.choice([-1, 0, 1, 2, 3, 9, 10000]); line = f"p peek {k}"; out = await asyncio.wait_for(r.peek(k), 30); sess.op(line, 'ok ' + _hxt(out) + st())
                         elif op == 'ru':
                             d = rnd.choice([b'\n', b'-', b'\r\n', b'--', b'a-a', b'ab', b'\r\n--' + b]); k = rnd.choice([None, -1, -1, 0, 1, 2, 3, 4, 8, 16, 100]); c = rnd.choice([0, 0, 1])
-                            line = f"p ru {d.hex()} {'none' if k is None else k} {c}"; out = await asyncio.wait_for(r.read_until(d, k, bool(c)), 30); sess.op(line, 'ok ' + out.hex() + st())
+                            line = f"p ru {d.hex()} {'none' if k is None else k} {c}"; out = await asyncio.wait_for(r.read_until(d, k, bool(c)), 30); sess.op(line, 'ok ' + _hxt(out) + st())
                         elif op in ('pu', 'pipe', 'exhaust'):
                             acc = []
 
@@ -572,9 +583,9 @@ def _acorr_cases(ctx, sess, n):
                                 async def write(self, data): acc.append(data)
                             if op == 'pu':
                                 d = rnd.choice([b'\n', b'-', b'\r\n', b'--', b'ab']); c = rnd.choice([0, 0, 1]); line = f"p pu {d.hex()} {c}"
-                                await asyncio.wait_for(r.pipe_until(d, Dst(), bool(c)), 30); sess.op(line, 'ok ' + b''.join(acc).hex() + st())
+                                await asyncio.wait_for(r.pipe_until(d, Dst(), bool(c)), 30); sess.op(line, 'ok ' + _hxj(acc) + st())
                             elif op == 'pipe':
-                                line = 'p pipe'; await asyncio.wait_for(r.pipe(Dst()), 30); sess.op(line, 'ok ' + b''.join(acc).hex() + st())
+                                line = 'p pipe'; await asyncio.wait_for(r.pipe(Dst()), 30); sess.op(line, 'ok ' + _hxj(acc) + st())
                             else:
                                 line = 'p exhaust'; await asyncio.wait_for(r.exhaust(), 30); sess.op(line, 'unit' + st())
                         elif op == 'iter':
@@ -582,11 +593,11 @@ def _acorr_cases(ctx, sess, n):
 
                             async def run_iter():
                                 async for c in r: acc.append(c)
-                            await asyncio.wait_for(run_iter(), 30); sess.op(line, 'ok ' + b''.join(acc).hex() + st())
+                            await asyncio.wait_for(run_iter(), 30); sess.op(line, 'ok ' + _hxj(acc) + st())
                         elif op == 'getdata':
                             line = 'p getdata'
                             try:
-                                out = await asyncio.wait_for(part.get_data(), 30); sess.op(line, 'ok ' + out.hex() + st())
+                                out = await asyncio.wait_for(part.get_data(), 30); sess.op(line, 'ok ' + _hxt(out) + st())
                             except MultipartParseError as e:
                                 sess.op(line, 'err ' + ('toolarge' if e.description == 'body part is too large' else 'other:' + str(e.description)) + st()); ctx.count('acorr_toolarge')
                         hist.append(line); ctx.count('acorr_op_' + op)
@@ -695,49 +706,59 @@ def _flat(ctx):
     def full_read_sync(part):
         how = rnd.choice(['read', 'read', 'pipe', 'loop', 'lines', 'until'])
         s = part.stream
-        if how == 'read': return s.read()
+        if how == 'read': return T(s.read())
         if how == 'pipe':
-            dst = io.BytesIO(); s.pipe(dst); return dst.getvalue()
+            dst = _ListSink(); s.pipe(dst); return b''.join(T(c) for c in dst.got)
         if how == 'loop':
             k = rnd.choice([1, 2, 7, 64]); out = b''
             while True:
-                c = s.read(k)
+                c = T(s.read(k))
                 if not c: return out
                 out += c
         if how == 'lines':
             out = b''
             while True:
-                ln = s.readline()
+                ln = T(s.readline())
                 if not ln: return out
                 out += ln
         out = b''
         while True:
-            c = s.read_until(b'-'); d = s.read(1); out += c + d
+            c = T(s.read_until(b'-')); d = T(s.read(1)); out += c + d
             if not c and not d: return out
 
     async def full_read_async(part):
         how = rnd.choice(['read', 'readall', 'pipe', 'loop', 'iter'])
         s = part.stream
-        if how == 'read': return await s.read()
-        if how == 'readall': return await s.readall()
+        if how == 'read': return T(await s.read())
+        if how == 'readall': return T(await s.readall())
         if how == 'pipe':
             got = []
 
             class Dst:
                 async def write(self, d): got.append(d)
-            await s.pipe(Dst()); return b''.join(got)
+            await s.pipe(Dst()); return b''.join(T(c) for c in got)
         if how == 'loop':
             k = rnd.choice([1, 2, 7, 64]); out = b''
             while True:
-                c = await s.read(k)
+                c = T(await s.read(k))
                 if not c: return out
                 out += c
         out = b''
-        async for c in s: out += c
+        async for c in s: out += T(c)
         return out
 
+    wrong_types = []
+
+    def T(x):
+        """every byte string a part stream hands out must be exactly a bytes (the model's contents are); anything else is appended to the reply"""
+        if type(x) is not bytes:
+            wrong_types.append(type(x).__name__); return _flatb(x)
+        return x
+
     def render(got, outcome):
-        return ''.join(f'p {h} {hx(c)} ' for h, c in got) + outcome
+        tail = (' TYPES!' + ','.join(wrong_types)) if wrong_types else ''
+        del wrong_types[:]
+        return ''.join(f'p {h} {hx(c)} ' for h, c in got) + outcome + tail
 
     def setup():
         b, parts, pre, tail, body = gen_form()
@@ -1089,6 +1110,7 @@ def _oracle(ctx, section='main'):
     import asyncio
     import io
     from runner import Hang
+    import lib_extvalue as X
     import falcon
     import falcon.asgi
     import falcon.testing as ft
@@ -1100,6 +1122,8 @@ def _oracle(ctx, section='main'):
     from falcon.asgi.stream import BoundedStream as ABoundedStream
     rnd = ctx.rng
 
+    ntyped = [0]
+
     def acc(f):
         try:
             return f()
@@ -1107,31 +1131,48 @@ def _oracle(ctx, section='main'):
             return ('MPE',)
 
     # ------------------------------------------------------------------ consuming one part
+    def B(x):
+        """second-order observation: a byte string handed out by a part must be exactly a `bytes` (bytearray(b'a') == b'a' is True,
+        so the value comparison alone would accept a mutable, unhashable look-alike)"""
+        ntyped[0] += 1
+        return x if type(x) is bytes else ('NOT-A-BYTES-OBJECT', type(x).__name__, _flatb(x))
+
+    def Bs(xs, joined):
+        """... for a sequence of pieces (read loop, lines, chunks written by pipe, chunks of an iteration): the joined bytes if every piece is a bytes"""
+        ntyped[0] += len(xs)
+        bad = [type(x).__name__ for x in xs if type(x) is not bytes]
+        return joined if not bad else ('NOT-ALL-BYTES-OBJECTS', [type(x).__name__ for x in xs], joined)
+
+    class WDst:
+        def __init__(self): self.got = []
+        def write(self, d): self.got.append(d); return len(d)
+
     def part_sync(p, how, arg):
         s = p.stream
         try:
             if how == 'skip': return ('none',)
             if how == 'exhaust': s.exhaust(); return ('none',)
-            if how == 'peek': return ('peek', s.peek(arg))
-            if how == 'read_all': return ('bytes', s.read())
-            if how == 'read_n': return ('prefix', s.read(arg))
+            if how == 'peek': return ('peek', B(s.peek(arg)))
+            if how == 'read_all': return ('bytes', B(s.read()))
+            if how == 'read_n': return ('prefix', B(s.read(arg)))
             if how == 'read_loop':
-                out = b''
+                out = b''; pieces = []
                 while True:
                     c = s.read(arg)
-                    if not c: return ('bytes', out)
+                    pieces.append(c)
+                    if not c: return ('bytes', Bs(pieces, out))
                     if len(c) > arg: return ('oversized-read', c)
                     out += c
             if how == 'get_data':
-                d = p.get_data(); return ('bytes', d) if p.get_data() is d else ('not-cached',)
-            if how == 'data_prop': return ('bytes', p.data)
+                d = p.get_data(); return ('bytes', B(d)) if p.get_data() is d else ('not-cached',)
+            if how == 'data_prop': return ('bytes', B(p.data))
             if how == 'get_text': return ('text', p.get_text())
             if how == 'text_prop': return ('text', p.text)
             if how == 'get_media':
                 m = p.get_media(); return ('media', m) if p.get_media() is m else ('not-cached',)
             if how == 'media_prop': return ('media', p.media)
             if how == 'read_until':
-                a = s.read_until(arg); return ('split', a, s.read())
+                a = s.read_until(arg); return ('split', B(a), B(s.read()))
             if how == 'lines':
                 out = []
                 while True:
@@ -1140,9 +1181,9 @@ def _oracle(ctx, section='main'):
                     if b'\n' in ln[:-1]: return ('bad-line', ln)
                     out.append(ln)
                 if any(not x.endswith(b'\n') for x in out[:-1]): return ('bad-lines', out)
-                return ('bytes', b''.join(out))
+                return ('bytes', Bs(out, b''.join(out)))
             if how == 'pipe':
-                dst = io.BytesIO(); s.pipe(dst); return ('bytes', dst.getvalue())
+                dst = WDst(); s.pipe(dst); return ('bytes', Bs(dst.got, b''.join(dst.got)))
         except MPE:
             return ('MPE',)
         except falcon.HTTPUnsupportedMediaType:
@@ -1158,37 +1199,38 @@ def _oracle(ctx, section='main'):
         try:
             if how == 'skip': return ('none',)
             if how == 'exhaust': await s.exhaust(); return ('none',)
-            if how == 'peek': return ('peek', await s.peek(arg))
-            if how == 'read_all': return ('bytes', await (s.read() if arg is None else s.readall()))
-            if how == 'read_n': return ('prefix', await s.read(arg))
+            if how == 'peek': return ('peek', B(await s.peek(arg)))
+            if how == 'read_all': return ('bytes', B(await (s.read() if arg is None else s.readall())))
+            if how == 'read_n': return ('prefix', B(await s.read(arg)))
             if how == 'read_loop':
-                out = b''
+                out = b''; pieces = []
                 while True:
                     c = await s.read(arg)
-                    if not c: return ('bytes', out)
+                    pieces.append(c)
+                    if not c: return ('bytes', Bs(pieces, out))
                     if len(c) > arg: return ('oversized-read', c)
                     out += c
             if how == 'get_data':
-                d = await p.get_data(); return ('bytes', d) if (await p.get_data()) is d else ('not-cached',)
-            if how == 'data_prop': return ('bytes', await p.data)
+                d = await p.get_data(); return ('bytes', B(d)) if (await p.get_data()) is d else ('not-cached',)
+            if how == 'data_prop': return ('bytes', B(await p.data))
             if how == 'get_text': return ('text', await p.get_text())
             if how == 'text_prop': return ('text', await p.text)
             if how == 'get_media':
                 m = await p.get_media(); return ('media', m) if (await p.get_media()) is m else ('not-cached',)
             if how == 'media_prop': return ('media', await p.media)
             if how == 'read_until':
-                a = await s.read_until(arg); return ('split', a, await s.read())
+                a = await s.read_until(arg); return ('split', B(a), B(await s.read()))
             if how == 'lines':   # the async stream has no readline: iterate it instead
-                out = b''
+                out = b''; pieces = []
                 async for c in s:
-                    out += c
-                return ('bytes', out)
+                    pieces.append(c); out += c
+                return ('bytes', Bs(pieces, out))
             if how == 'pipe':
                 got = []
 
                 class Dst:
                     async def write(self, d): got.append(d)
-                await s.pipe(Dst()); return ('bytes', b''.join(got))
+                await s.pipe(Dst()); return ('bytes', Bs(got, b''.join(got)))
         except MPE:
             return ('MPE',)
         except falcon.HTTPUnsupportedMediaType:
@@ -1323,6 +1365,12 @@ def _oracle(ctx, section='main'):
             if len(g) < 5:
                 return f'part {i}: consuming it ({exp_how[i] if i < len(exp_how) else "?"}) raised something other than MultipartParseError (outcome {got[-1]!r})'
             for k, what in enumerate(('name', 'filename', 'content_type')):
+                if isinstance(e[k], X.Accept) and not loose_headers:
+                    # an RFC 8187 extended value: the strict reference decoder's judgement (lib_extvalue.judge)
+                    if not e[k].ok(g[k]): return f'part {i}: {what} = {g[k]!r}, expected {e[k]!r}'
+                    # ... and secure_filename, which is derived from it, must not paper over a refused name
+                    if g[k] == ('MPE',) and g[3] != ('MPE',): return f'part {i}: filename raised the parse error but secure_filename gave {g[3]!r}'
+                    continue
                 if loose_headers or e[k] is _ANY:
                     if not (g[k] is None or isinstance(g[k], str) or g[k] == ('MPE',)): return f'part {i}: {what} gave {g[k]!r}'
                 elif g[k] != e[k] or type(g[k]) is not type(e[k]):
@@ -1753,12 +1801,81 @@ def _oracle(ctx, section='main'):
                         if c == 0: ctx.count('param_edit_NUL')
                         await damaged(nb, b, cth, [(kind, x, c)], {'exhaustive_param_edits': True}, script=script, oname=O_PEDIT, kind='pedit')
 
+    # ---------------------------------------------------------------- RFC 8187 / 5987 extended values (filename*), well-formed AND malformed
+    O_EXT = {
+        'strict': ('extended parameter value filename*=charset\'lang\'value (RFC 8187/5987) judged by a strict reference decoder: a well-formed value in UTF-8 / ISO-8859-1 / US-ASCII - with or without a language tag, also one with subtags such as en-GB (F48) - gives exactly the '
+                   'decoded name; percent-escapes whose octets are ILL-FORMED in the declared charset (truncated/overlong/lone continuation/surrogate/too large UTF-8, octets >= 0x80 declared US-ASCII) give the '
+                   'multipart parse error, never a made-up name; an unknown or optional charset gives the decoded name, the parse error or is ignored; count, order, content and WSGI/ASGI agreement unaffected'),
+        'liberal': ('a filename* value that VIOLATES the ext-value grammar (stray "%", characters outside attr-char, missing/extra quote mark, bad charset/language syntax, no value characters): the multipart parse '
+                    'error, the parameter ignored, or a liberal literal reading - which exists only if its octets are well-formed in the charset, so never invented characters'),
+    }
+
+    def ext_part(v, src, tags=()):
+        """one part whose Content-Disposition carries filename*=v (with or without a plain filename beside it, in either order) -> part dict | None"""
+        if '\r' in v or '\n' in v: return None
+        fb = rnd.choice([None, None, 'fb.txt', 'fall back.bin'])
+        name = rnd.choice(['f', 'field name', 'n1'])
+        accept = X.judge(v, fb)
+        tail_bs = v.endswith('\\')          # a quoted value ending in a backslash must stay the last parameter (class F46 otherwise)
+        params = [('name', name)] + ([('filename', fb)] if fb is not None else [])
+        if tail_bs: params.append(('filename*', v))
+        else: params.insert(rnd.randint(0, len(params)), ('filename*', v))
+        if rnd.random() < 0.08:
+            # RFC 7578 4.2 forbids the extended notation for the field name and falcon does not read it: it must change nothing
+            params.insert(rnd.randint(0, len(params) - 1), ('name*', rnd.choice(["UTF-8''other", "UTF-8''%C3%28", "UTF-8'x", ''])))
+            ctx.count('ext_with_name_star_beside')
+        cd, f46 = _enc_params(rnd, rnd.choice(['form-data', 'form-data', 'Form-Data']), params)
+        if f46: return None
+        ct = rnd.choice([None, None, 'application/octet-stream', 'text/plain'])
+        lines = [rnd.choice(['Content-Disposition', 'content-disposition']).encode() + b': ' + cd.encode('utf-8')]
+        if ct: lines.append(b'Content-Type: ' + ct.encode())
+        rnd.shuffle(lines)
+        data = rnd.choice([b'', b'v', b'two\r\nlines']) if ct == 'text/plain' else rnd.choice(SMALL)
+        ctx.count('ext_class_' + accept.cls); ctx.count('ext_source_' + src); ctx.count('ext_oracle_' + accept.oracle)
+        ctx.count('ext_expect_' + ('parse_error_only' if accept.only_error() else 'exact_name' if len(accept.vals) == 1 else 'one_of_%d' % len(accept.vals)))
+        ctx.count('ext_fallback_filename_' + ('absent' if fb is None else 'present'))
+        for t in tags: ctx.count('ext_grammar_' + t)
+        return {'name': name, 'filename': accept, 'ct': ct or 'text/plain', 'data': data, 'kind': 'bin', 'obj': None, 'charset': 'utf-8', 'block': CRLF.join(lines),
+                'enc': {'filename*': v, 'plain_filename': fb, 'strict_decoder': repr(X.strict(v)), 'accepted': repr(accept), 'class': accept.cls, 'source': src}}
+
+    async def ext_values():
+        """(g) every single edit of well-formed extended values + a grammar of malformed ones, judged by the strict decoder, both stacks"""
+        i, k = ctx.shard
+        todo = []
+        for base in X.BASES + ([] if ctx.quick else X.BASES_THOROUGH):
+            v = X.base_value(base)
+            todo.append((v, 'base', ()))
+            todo += [(e, 'edit_' + kind, ()) for e, kind in X.single_edits(v)]
+        mine = todo[i::k]
+        for _ in range(ctx.n(2500, 40000)):
+            v, tags = X.grammar_value(rnd)
+            mine.append((v, 'grammar', tags))
+        pend = {'strict': [], 'liberal': []}
+
+        async def flush(key, force=False):
+            lst = pend[key]
+            while lst and (force or len(lst) >= 6):
+                n = rnd.randint(1, 6); chunk = lst[:n]; del lst[:n]
+                await hdr_form(chunk, O_EXT[key], {'strict': 'ext', 'liberal': 'extlib'}[key], {})
+        for v, src, tags in mine:
+            part = ext_part(v, src, tags)
+            if part is None:
+                ctx.count('ext_skipped_unencodable'); continue
+            key = part['filename'].oracle
+            pend[key].append(part)
+            await flush(key)
+        for key in pend: await flush(key, True)
+
     async def headers_main():
         await cd_sweep()
         await param_forms()
         await param_edits()
+        await ext_values()
+        ctx.count('byte_strings_whose_exact_type_was_observed (part.stream reads, get_data/.data, written and iterated chunks)', ntyped[0])
 
     asyncio.run(main() if section == 'main' else headers_main())
+    if section == 'main':
+        ctx.count('byte_strings_whose_exact_type_was_observed (part.stream reads, get_data/.data, written and iterated chunks)', ntyped[0])
 
 
 def _buffer_oracle(ctx):
@@ -1783,6 +1900,9 @@ def _buffer_oracle(ctx):
                 return f'call {i} ({acc}) raised {res[1]}'
             if res[0] == 'ok':
                 v = res[1]
+                want = bytes if acc in ('get_data', 'data') else str
+                if type(v) is not want:
+                    return f'call {i} ({acc}) returned a {type(v).__name__} ({_short(v, 60)}), not a {want.__name__}'
                 if seen_large:
                     return f'call {i} ({acc}) returned {_short(v, 60)} after an earlier call had raised "body part is too large"'
                 b = v if isinstance(v, bytes) else v.encode('ascii')
@@ -1897,6 +2017,34 @@ def _ph_corr(ctx):
         ctx.count('ph_' + kind); ctx.count('ph_path_' + ('quote_aware' if ('"' in line or '\\' in line) else 'fast'))
         ctx.seen(('ph', line), bool(pd))
     sess.finish()
+
+
+def _flatb(x):
+    try:
+        return bytes(x)
+    except Exception:  # noqa
+        return repr(x).encode()
+
+
+def _hxt(x):
+    """hex of a byte string for a correspondence reply + its exact type when that is not `bytes` (the models always answer bytes)"""
+    try:
+        h = x.hex()
+    except Exception:  # noqa
+        h = repr(x)
+    return h if type(x) is bytes else h + '!TYPE=' + type(x).__name__
+
+
+def _hxj(chunks):
+    """... of the chunks written to a pipe destination / yielded by an iteration: joined hex + the types when some chunk is not a bytes"""
+    h = b''.join(_flatb(c) for c in chunks).hex()
+    return h if all(type(c) is bytes for c in chunks) else h + '!TYPES=' + ','.join(type(c).__name__ for c in chunks)
+
+
+class _ListSink:
+    """sync pipe destination that keeps the written objects (io.BytesIO would flatten their types)"""
+    def __init__(self): self.got = []
+    def write(self, d): self.got.append(d); return len(d)
 
 
 def _short(x, n=160):
